@@ -1089,6 +1089,24 @@ func main() {
 			missing = append(missing, msgNames[b])
 		}
 	}
+	// message types whose handler is a concrete Lean model in replicas_agree_consul_families (owner of
+	// the model and of its tie in brackets); the rest of the REGISTERED types is the still-opaque list
+	concrete := []byte{0, 1, 2, 3, 5, 7, 8 /* CV.Store: C03 C04 */, 22, 13, 9, 45, 17, 18 /* CV.Cas: C10 */, 12 /* CV.Ixn: C13 */, 31, 6 /* CV.Store.CatX: C07 */, 4}
+	isConcrete := map[byte]bool{}
+	var concreteNames, opaqueNames []string
+	for _, b := range concrete {
+		isConcrete[b] = true
+		concreteNames = append(concreteNames, msgNames[b])
+	}
+	for _, b := range regOrder {
+		if _, ok := table[b]; ok && !isConcrete[b] {
+			opaqueNames = append(opaqueNames, msgNames[b])
+		}
+	}
+	run.Line("fam", "concrete="+hx.EncList(concreteNames)+" opaque="+hx.EncList(opaqueNames))
+	run.Extra["concrete_message_types"] = concreteNames
+	run.Extra["opaque_message_types"] = opaqueNames
+	run.Extra["message_types"] = fmt.Sprintf("%d concrete in replicas_agree_consul_families, %d opaque (hypothesis hrest), %d registered", len(concreteNames), len(opaqueNames), len(table))
 	covOut := "ok"
 	if len(missing) > 0 {
 		covOut = "missing=" + hx.EncList(missing)
